@@ -416,10 +416,16 @@ func runCheck(id, tier string) int {
 		// confirmation through the plain executable
 		confirm := map[string]interface{}{}
 		if v.Replay.CLI && (v.Replay.Mode == "file" || v.Replay.Mode == "repl" || v.Replay.Mode == "args") {
-			co := runCLI(b.CLI, v.Replay.Program, v.Replay.Stdin, v.Replay.Args, v.Replay.Mode == "repl", 120*time.Second)
-			co2 := runCLI(b.CLI, v.Replay.Program, v.Replay.Stdin, v.Replay.Args, v.Replay.Mode == "repl", 120*time.Second)
+			to := 60 * time.Second
+			if strings.Contains(sig, "|diverged") {
+				to = 10 * time.Second // expected to run until killed
+			}
+			co := runCLI(b.CLI, v.Replay.Program, v.Replay.Stdin, v.Replay.Args, v.Replay.Mode == "repl", to)
 			confirm["cli_stdout"], confirm["cli_stderr"], confirm["cli_status"], confirm["cli_timed_out"] = co.Stdout, co.Stderr, co.Status, co.TimedOut
-			confirm["cli_deterministic"] = co == co2
+			if !co.TimedOut {
+				co2 := runCLI(b.CLI, v.Replay.Program, v.Replay.Stdin, v.Replay.Args, v.Replay.Mode == "repl", to)
+				confirm["cli_deterministic"] = co == co2
+			}
 		}
 		if k := matchKnown(ks, id, sig); k != nil {
 			knownSeen = append(knownSeen, sig)
